@@ -9,7 +9,7 @@
 set -u
 cd /verif || exit 2
 want="$*"
-JOBS=${JOBS:-6}
+JOBS=${JOBS:-4}
 L=$(mktemp "${TMPDIR:-/tmp}/govc-selftest-jobs.XXXXXX") || exit 2
 O=$(mktemp "${TMPDIR:-/tmp}/govc-selftest-out.XXXXXX") || exit 2
 trap 'rm -f "$L" "$O"' EXIT INT TERM
